@@ -243,4 +243,16 @@ func init() {
 			[]string{"allegra", "mary", "alonzo", "babbage", "conway"})
 		l.pf("end GV.Gen.G1Rules\n")
 	})
+	registerGen(func() {
+		emitConsts("G1Consts", [][3]string{
+			{"ledger/common", "txTypeAlonzo", "txTypeAlonzo"},
+			{"ledger/shelley", "TxTypeShelley", "txTypeShelleyEra"},
+			{"ledger/allegra", "TxTypeAllegra", "txTypeAllegraEra"},
+			{"ledger/mary", "TxTypeMary", "txTypeMaryEra"},
+			{"ledger/alonzo", "TxTypeAlonzo", "txTypeAlonzoEra"},
+			{"ledger/babbage", "TxTypeBabbage", "txTypeBabbageEra"},
+			{"ledger/conway", "TxTypeConway", "txTypeConwayEra"},
+			{"ledger/dijkstra", "TxTypeDijkstra", "txTypeDijkstraEra"},
+		})
+	})
 }
